@@ -328,6 +328,7 @@ inductive Local where
   | aclWhoami     -- ACL WHOAMI    ($default;                      executor: connLevel error)
   | reset         -- RESET         (+RESET;                        executor: unknown command)
   | clientSetname -- CLIENT SETNAME a  (+OK;                       executor: +OK)
+  | publish       -- PUBLISH c m   (:0 outside MULTI; refused with NOPERM inside: never queued)
   deriving DecidableEq, Repr
 
 inductive Cmd where
@@ -415,6 +416,7 @@ def exec (s : Store) : Cmd → Store × Rep
   | .loc .aclWhoami => (s, .err .connLevel)
   | .loc .reset => (s, .err .unknownCmd)
   | .loc .clientSetname => (s, .simple .ok)
+  | .loc .publish => (s, .err .unknownCmd)
 
 /-- "default" -/
 def defaultUser : Bytes := [100, 101, 102, 97, 117, 108, 116]
@@ -424,6 +426,7 @@ def localReply : Cmd → Rep
   | .loc .aclWhoami => .bulk (some defaultUser)
   | .loc .reset => .simple .reset
   | .loc .clientSetname => .simple .ok
+  | .loc .publish => .int 0
   | _ => .err .unknownCmd   -- not a connection-level command (never asked by the driver)
 
 def backend : Txn.Backend Store Nat Cmd Rep where
